@@ -144,18 +144,26 @@ def badEqOwn (L : Loaded) (cname : String) (b : BadEq) : Err :=
   match lhsChk with
   | .error e => e
   | .ok () =>
-    match checkExpr L.ust L.vt cname b.rhs with
-    | .error e => e
-    | .ok () =>
-      match b.lhs with
-      | .higher _ _ _ => .valueError "Only first order derivatives wrt a single variable are supported"
-      | .nonvar _ => .valueError "Equation LHS should be a derivative or variable"
+    match b.lhs with
+    | .higher _ _ _ =>
+        -- `_wrapped_diff`: `int(degree)` of a `<cn>` that carries units (a Quantity) raises while the left-hand side is
+        -- being built, before the right-hand side is looked at
+        .unsupported "TypeError: The degree of a derivative must be an int"
+    | .nonvar _ =>
+      match checkExpr L.ust L.vt cname b.rhs with
+      | .error e => e
+      | .ok () => .valueError "Equation LHS should be a derivative or variable"
 
 /-- `_add_maths` up to the first bad equation: always an error -/
 def badEqErr (L : Loaded) (doc : Doc) (b : BadEq) : Err :=
   match checkMaths L.ust L.vt L.st (truncComps doc.comps b.comp b.pos) (L.st.convs.map (·.target)) with
   | .error e => e
   | .ok _ => badEqOwn L ((doc.comps[b.comp]?.map (·.name)).getD "") b
+
+/-- exception class as `load_model` shows it (`Err` has no constructor for `TypeError`) -/
+def className : Err → String
+  | .unsupported w => if w.startsWith "TypeError" then "TypeError" else "Unsupported"
+  | e => e.className
 
 /-- `Parser.parse` -/
 def loadFull (fd : FaultDoc) : Except Err Flat :=
